@@ -138,7 +138,8 @@ class PhaseGradientGate(raw_types.Gate):
         if isinstance(self.exponent, sympy.Basic):
             return NotImplemented
 
-        n = int(np.prod([args.target_tensor.shape[k] for k in args.axes], dtype=np.int64))
+        # The gate acts on qubits; an axis may be wider than 2 when the qubits are subspaces of qudits.
+        n = 1 << self._num_qubits
         for i in range(n):
             p = 1j ** (4 * i / n * self.exponent)
             args.target_tensor[args.subspace_index(big_endian_bits_int=i)] *= p
